@@ -56,7 +56,13 @@ def plan(tier, seed):
             grid[0] = 2
         M = int(rng.integers(16, 48))
         ov, w = pick(rng, [(1.25, 4), (1.25, 4), (2, 4), (2, 4), (1.5, 4), (1.25, 6), (2, 6),
-                           (1.5, 3), (1.75, 5), (1.3, 4.5), (1.4, 3.5), (1.9, 5.5)])
+                           (1.5, 3), (1.75, 5), (1.3, 4.5), (1.4, 3.5), (1.9, 5.5),
+                           (1.3, 4), (1.35, 4), (1.6, 4), (1.28, 5), (1.7, 4)])
+        if i % 6 == 5:
+            # decimal oversampling factors times lengths that give a whole number (1.3 x 10,
+            # 1.6 x 20, 1.35 x 40 ...): every place that derives the oversampled size must agree
+            grid = [int(pick(rng, [[5, 10, 20, 25, 40], [5, 10, 20], [5, 10]][nd - 1]))
+                    for _ in range(nd)]
         P.add("acc", grid=grid, M=M, batch=pick(rng, [[], [], [2], [2, 2], [5]]),
               ccls=pick(rng, ["inside", "inside", "integer", "ties", "clustered", "outside"]),
               img=pick(rng, ["gauss", "gauss", "delta", "edge-delta", "const", "expo"]),
@@ -167,7 +173,8 @@ def run_case(case):
             err = metric(y, ref, x, M, N)
             checks += 1
             th = THRESH.get((ov_, w_))
-            bound = th if th is not None else 0.25
+            bound = th if th is not None else (
+                max(0.03, sep_bound(1.25, nd)) if (ov_ >= 1.25 and w_ >= 4) else 0.25)
             if nd >= 2 and th is not None:
                 bound = max(th, sep_bound(ov_, nd))
             worst = max(worst, err / bound)
@@ -250,9 +257,14 @@ def run_case(case):
                                 err, th, grid, case["ccls"], case["img"], ov, w), wit,
                             mech="threshold", obs=obs)
     else:
-        # no absolute threshold in the statement: still an approximation of the NDFT
-        # (a wrong scaling / centre / sign gives O(1)); generous sanity bound of 25 %
-        if not err <= 0.25:
+        # no absolute threshold in the statement: still an approximation of the NDFT (a wrong
+        # scaling / centre / sign gives O(1)).  Sanity bound: a setting with oversamp >= 1.25
+        # and width >= 4 is at least as accurate as the default (3 %, or the separable kernel
+        # bound in several dimensions; observed <= 2.3 % over all such settings); 25 % for
+        # narrower kernels (observed <= 3.2 %)
+        sane = max(0.03, sep_bound(1.25, nd)) if (ov >= 1.25 and w >= 4) else 0.25
+        obs["err/sanity"] = err / sane
+        if not err <= sane:
             return violated(sig, "not an approximation of the NDFT at all: error %.3f at "
                             "(oversamp %s, width %s)" % (err, ov, w), wit, mech="gross",
                             obs=obs)
@@ -301,10 +313,18 @@ def run_case(case):
         return violated(sig, "nufft_adjoint is not the adjoint of nufft: %s vs %s" % (lhs, rhs),
                         wit, mech="adjoint", obs=obs)
     # the operator classes are the same transform with the same parameters, also when reached
-    # indirectly (adjoint of the adjoint, NUFFTAdjoint constructed directly)
+    # indirectly (adjoint of the adjoint, NUFFTAdjoint constructed directly) and after the
+    # operator objects rejected an input (integer image, wrong rank)
     if sum(case["rs"]) % 3 == 0:
         A = sp.linop.NUFFT(batch + grid, coord, oversamp=ov, width=w)
         B = sp.linop.NUFFTAdjoint(batch + grid, coord, oversamp=ov, width=w)
+        for op_, shp_ in ((A, batch + grid), (B, list(y.shape))):
+            for bad_ in (np.ones(shp_, np.int64), np.ones(shp_ + [2], np.complex128),
+                         np.ones(shp_, np.float32)):
+                try:
+                    op_(bad_)
+                except Exception:
+                    pass
         xc = np.ascontiguousarray(x0)
         rt = 1e-12 if not single else 1e-5
         for nm_, got_, ref_ in (("linop.NUFFT", A(xc), y), ("linop.NUFFT.H", A.H(yy), xa),
@@ -364,7 +384,7 @@ def run_case(case):
                                                for dd in range(nd))]
                          for j in range(ci.shape[0])], axis=-1).reshape(ref.shape)
         checks += 1
-        if nrm(samp - ref) > 1e-9 * max(nrm(ref), 1e-300) + 1e-12:
+        if nrm(samp - ref) > (1e-9 if not single else 1e-4) * max(nrm(ref), 1e-300) + 1e-12:
             return inconclusive("oracle self-check failed: NDFT at integer coordinates "
                                 "differs from DFT samples")
     return held(sig, obs, checks)
